@@ -2,7 +2,7 @@
 
 use crate::bridge;
 use crate::ctx::guarded;
-use crate::monitor::{Mon, R2, R3};
+use crate::monitor::{Mon, R2, R3, R4};
 use crate::spec::{SAvp, SMessage};
 use core::borrow::Borrow;
 use rl2tp::avp::types::*;
@@ -26,9 +26,11 @@ pub enum ReaderKind {
     R3a,
     /// monitored owning, overrun consumes everything
     R3b,
+    /// monitored slice-backed, position shared behind an Rc (overrun consumes nothing)
+    R4,
 }
 
-pub const MONITORED: [ReaderKind; 4] = [ReaderKind::R2a, ReaderKind::R2b, ReaderKind::R3a, ReaderKind::R3b];
+pub const MONITORED: [ReaderKind; 5] = [ReaderKind::R2a, ReaderKind::R2b, ReaderKind::R3a, ReaderKind::R3b, ReaderKind::R4];
 
 pub fn decode_msg_with<T: Borrow<[u8]>, R: Reader<T>>(r: &mut R, opts: Option<u8>) -> MsgOut {
     let res = match opts {
@@ -125,6 +127,34 @@ macro_rules! with_reader {
                 let mon = RefCell::new(if $sites { m.with_sites() } else { m });
                 let out = {
                     let mut $r = R2::new($bytes, &mon);
+                    guarded(|| {
+                        let o = $body;
+                        (o, Reader::len(&$r))
+                    })
+                };
+                let mon = mon.into_inner();
+                match out {
+                    Ok((o, rem)) => (
+                        Ok(o),
+                        Observed {
+                            remaining: rem,
+                            mon: Some(mon),
+                        },
+                    ),
+                    Err(p) => (
+                        Err(p),
+                        Observed {
+                            remaining: 0,
+                            mon: Some(mon),
+                        },
+                    ),
+                }
+            }
+            ReaderKind::R4 => {
+                let m = Mon::new(false);
+                let mon = RefCell::new(if $sites { m.with_sites() } else { m });
+                let out = {
+                    let mut $r = R4::new($bytes, &mon);
                     guarded(|| {
                         let o = $body;
                         (o, Reader::len(&$r))
